@@ -29,7 +29,7 @@ def tok_obligations(tier: str, seed: int, mode: str) -> tuple[list[Obl], dict]:
     if tier == "quick":
         # the scanning code is shared by all dialects, only the tables differ: the base family and a seed-rotated
         # few get every context template, every other family the two templates that exercise its own delimiters
-        nfull = 3 if mode == "geom" else 2
+        nfull = 3 if mode == "geom" else 1
         others = ("between", "quote[") if mode == "geom" else ("empty",)
         rest = [i for i in range(len(fams)) if fams[i][0] != ""]
         full = {i for i in range(len(fams)) if fams[i][0] == ""}
